@@ -19,6 +19,7 @@ def showEv : Ev → String
   | .wd n f => s!"W {n}:{f}"
   | .rrStart f => s!"RS {f}"
   | .rrEnd f => s!"RE {f}"
+  | .eor f => s!"EOR {f}"
 
 def insertSorted (r : Route) : List Route → List Route
   | [] => [r]
@@ -26,7 +27,7 @@ def insertSorted (r : Route) : List Route → List Route
 
 def sortRoutes (l : List Route) : List Route := l.foldl (fun acc r => insertSorted r acc) []
 
-def ribLine (s : Sess) (ws : List String) : Sess × String :=
+def ribLineCore (s : Sess) (ws : List String) : Sess × String :=
   let bad := (s, "bad-op")
   let stepOk (op : Op) : Sess × String := ((s.step op).1, "ok")
   match ws with
@@ -90,5 +91,21 @@ def ribLine (s : Sess) (ws : List String) : Sess × String :=
   | ["pending"] => (s, if s.rib.pending then "1" else "0")
   | ["inclwd"] => (s, if s.inclWd then "1" else "0")
   | _ => bad
+
+/-- The driver state carries `send_eor` as well (ESess). -/
+def ribLine (s : ESess) (ws : List String) : ESess × String :=
+  match ws with
+  | ["eor"] =>
+    let (s', evs) := s.step .eor
+    (s', joinWith ";" (evs.map showEv))
+  | ["init", _, _] =>
+    let (c, o) := ribLineCore s.core ws
+    ({ core := c, sendEor := true }, o)
+  | "est" :: _ =>
+    let (c, o) := ribLineCore s.core ws
+    ({ core := c, sendEor := if o = "ok" then true else s.sendEor }, o)
+  | _ =>
+    let (c, o) := ribLineCore s.core ws
+    ({ s with core := c }, o)
 
 end Exa.Driver
